@@ -170,6 +170,7 @@ var seedExpectations = []seedExpect{
 	{"dxil-sample-mask-semantic", "C18", "semantic.siblings", "MapBuiltinToSemantic:missing:BuiltinSampleMask"},
 	{"deref-compound-noload", "C08", "deref.loadrule", "lowerAssign"},
 	{"inline-local-noreinit", "C13", "inline.localreinit", "inlineOneCall"},
+	{"inline-return-in-loop", "C13", "return.breakdepth", "rewriteReturnsForInline"},
 	{"glsl-vector-select", "C05", "select.condshape", "writeSelect"},
 	{"glsl-image-atomic-coord", "C05", "image.coordbuilder", "writeImageAtomic"},
 	{"glsl-shallow-feature-scan", "C05", "walker.shallow", "scanStatementsForFeatures"},
